@@ -326,6 +326,16 @@ func TestC06(t *testing.T) {
 		n := rapid.IntRange(cfg.MinSteps, cfg.MaxSteps).Draw(rt, "steps")
 		for i := 0; i < n; i++ {
 			op := genNodeOp(rt, nm, cfg)
+			// 1 operation in 7 is an adversarial peer block (two award transactions, wrong award, unknown parent, forged
+			// award, unsigned transaction, carried tree with other leaves ...): whatever a REFUSED confirmation or play had
+			// queued must not reach the disk with the writes of a later operation (round-7 change C06-k: the shared
+			// confirm batch is only reset after a successful write)
+			if rapid.IntRange(0, 6).Draw(rt, "advpeer") == 0 {
+				op = genAdvPeer(rt, nm, cfg)
+				if op.Expect != "" {
+					cs.Label("adversarial-block:" + op.Expect)
+				}
+			}
 			if op.Op == "mine" && rapid.Bool().Draw(rt, "ownaddress") {
 				// the node's own block under its own address, through the real packBlock (restart code may treat
 				// blocks it proposed itself differently)
